@@ -356,7 +356,8 @@ static void st_cmd(void)
 		int r, n = 0;
 		struct pollfd pf;
 		pf.fd = st_rfd; pf.events = POLLIN;
-		if (st_mode == 1) {
+		if (st_mode == 2) { /* the waiting side reads the descriptor itself */ }
+		else if (st_mode == 1) {
 			/* the input's `next` reads without waiting for the descriptor: ask only when data is there */
 			r = 0;
 			while (r >= 0 && ++n < 100000 && (pf.revents = 0, poll(&pf, 1, 0)) > 0 && (pf.revents & POLLIN)) {
@@ -392,6 +393,12 @@ static void st_cmd(void)
 		printf(" n=%zu | C - | I -\n", st_got - start);
 		if (getenv("ST_DEBUG")) fprintf(stderr, "dispatch ret=%d rd: len=%zu max=%zu off=%zu pos=%zu len=%zu msg=%zd curr=%zu ctx=%zx\n", r,
 			rx._rd.data.len, rx._rd.data.max, rx._rd.data.off, rx._rd._state.data.pos, rx._rd._state.data.len, rx._rd._state.data.msg, rx._rd._state.curr, (size_t) rx._rd._state._ctx);
+	}
+	else if (!strcmp(op, "skip") && drv_nw == 2) {
+		/* dispatch without a handler drops one message */
+		if (st_mode == 1) st_in->_vptr->dispatch(st_in, 0, 0);
+		else if (!st_mode) mpt_stream_dispatch(&rx, 0, 0);
+		printf("R ok | C - | I -\n");
 	}
 	else if (!strcmp(op, "sync") && drv_nw == 2) {
 		printf("R sent=%zu got=%zu | C - | I -\n", st_sent, st_got);
@@ -447,6 +454,20 @@ int main(void)
 				free(pending); pending = 0; plen = 0;
 				++sent;
 				fdone = eq._state.done;
+				eq_line("ok", retname(n, buf, sizeof(buf)));
+			}
+			else if (!strcmp(op, "del") && drv_nw == 3) {
+				/* remove messages: the one in progress counts as the first */
+				if (drv_parse_nat(drv_w[2], &a) || !a || a > 64) { puts("bad-op"); continue; }
+				size_t z0 = 0, z1 = 0, i, fd = fdone <= eq.data.len ? fdone : eq.data.len;
+				for (i = 0; i < fd; i++) if (!q_at(&eq.data, i)) ++z0;
+				ssize_t n = mpt_queue_push(&eq, a, 0);
+				if (n < 0) { eq_line("refused", drv_errname(n)); continue; }
+				free(pending); pending = 0; plen = 0;
+				if (fdone > eq._state.done) fdone = eq._state.done;
+				fd = fdone <= eq.data.len ? fdone : eq.data.len;
+				for (i = 0; i < fd; i++) if (!q_at(&eq.data, i)) ++z1;
+				if (eq._enc && z0 > z1) sent -= z0 - z1;
 				eq_line("ok", retname(n, buf, sizeof(buf)));
 			}
 			else if (!strcmp(op, "grow") && drv_nw == 3) {
